@@ -4,6 +4,7 @@
 package world
 
 import (
+	"net/http/httptest"
 	"bufio"
 	"bytes"
 	"encoding/json"
@@ -129,6 +130,9 @@ type W struct {
 	// Deferred: the delayed tasks the server has scheduled and the harness has not run yet (the HLS
 	// directory cleanup of an ended stream); they never run by themselves in a world
 	Deferred []DeferredTask
+	// HlsClock: HLS sub-sessions live on this world's clock (requests through HlsGet, the expiry sweep at
+	// every Tick); otherwise on real time, on which they never expire within a run
+	HlsClock bool
 	defMu    sync.Mutex
 	// relay environment (see relay.go)
 	relay    bool
@@ -305,6 +309,9 @@ func (w *W) Settle() error {
 // Tick lets one second pass and runs the body of the server's 1 s timer case once.
 func (w *W) Tick() error {
 	w.Advance(time.Second)
+	if w.HlsClock {
+		w.underHlsClock(func() { logic.VerifHlsSweep(w.SM) }) // lal sweeps expired HLS sub-sessions once a second too
+	}
 	w.SM.VerifTick(&w.tick)
 	err := w.Settle()
 	w.atTick = w.counters()
@@ -364,6 +371,36 @@ func (w *W) Close() {
 }
 
 func (w *W) Dump() string { return logic.VerifDump(w.SM) }
+
+var hlsClockMu sync.Mutex
+
+// underHlsClock runs f with the HLS sub-sessions' clock set to this world's (the hook is process-wide).
+func (w *W) underHlsClock(f func()) {
+	hlsClockMu.Lock()
+	defer hlsClockMu.Unlock()
+	hls.VerifNowFn = w.Now
+	defer func() { hls.VerifNowFn = nil }()
+	f()
+}
+
+// HlsGet sends one HLS request (playlist or segment) from the given remote address through the real
+// handler, under this world's clock when HlsClock is set.
+func (w *W) HlsGet(uri, remote string) *httptest.ResponseRecorder {
+	req, _ := http.ReadRequest(bufio.NewReader(strings.NewReader("GET " + uri + " HTTP/1.1\r\nHost: h\r\n\r\n")))
+	if req == nil {
+		return nil
+	}
+	req.RemoteAddr = remote
+	rec := httptest.NewRecorder()
+	mux := http.NewServeMux()
+	mux.HandleFunc("/hls/", func(rw http.ResponseWriter, r *http.Request) { logic.VerifServeHls(w.SM, rw, r) })
+	if w.HlsClock {
+		w.underHlsClock(func() { mux.ServeHTTP(rec, req) })
+	} else {
+		mux.ServeHTTP(rec, req)
+	}
+	return rec
+}
 
 // DeferredTask is a delayed task of the server (see W.Deferred).
 type DeferredTask struct {
